@@ -591,8 +591,7 @@ func (s *dbSet) path(backend string) (string, error) {
 			return "", fmt.Errorf("%s compile: %w", backend, err)
 		}
 	case "rdb1root":
-		// RocksDB v1 plus a record at the root name: location lookups of names without a
-		// map fail (handler path: FindLocation error -> LogFailed, nothing written)
+		// RocksDB v1 plus an NS record at the root name
 		in2 := filepath.Join(s.dir, "data-root.in")
 		text, err := os.ReadFile(s.in)
 		if err != nil {
@@ -1182,8 +1181,11 @@ func queryPart(a *hlib.Args, e *hlib.Emitter, dbs *dbSet) error {
 	}
 	emitQuery(e, s, nil, qspec{Name: "foo.example.com.", Qtype: dns.TypeA, Edns: -1, IP: "9.9.9.9", MaxAns: 1}, "")
 	emitQuery(e, s, nil, qspec{Name: "foo.example.com.", Qtype: dns.TypeAAAA, Edns: 0, Do: true, IP: "9.9.9.9", MaxAns: 1}, "")
-	// 2b. location lookup failure (RocksDB v1 with a record at the root name)
+	// 2b. RocksDB v1 with the root delegated (thorough tier): referrals from the root
 	for _, cache := range []string{"off", "on"} {
+		if a.Tier != "thorough" {
+			break
+		}
 		s, err := newServer(dbs, "rdb1root", cache)
 		if err != nil {
 			return err
